@@ -9,6 +9,7 @@ use libc::{c_char, c_int, c_void, mode_t, msghdr, off_t, size_t, socklen_t, ssiz
 
 pub const IS_MODEL: bool = true;
 pub const MAXA: usize = 10;
+pub const PAY: usize = 40;
 #[cfg(not(feature = "bigfd"))]
 pub const MAXF: usize = 6;
 #[cfg(feature = "bigfd")]
@@ -28,10 +29,11 @@ pub struct Att {
     pub nfds: usize,
     pub fds: [c_int; MAXF],
     pub ctl_ok: bool, // control message well-formed (level, type, lengths)
+    pub pay: [u8; PAY], // the first bytes of the payload (where the ipc layer writes attachment indices)
     pub ok: bool,
 }
 pub const A0: Att =
-    Att { fd: -1, hdr: 0, has_hdr: false, base: 0, len: 0, nfds: 0, fds: [-1; MAXF], ctl_ok: true, ok: false };
+    Att { fd: -1, hdr: 0, has_hdr: false, base: 0, len: 0, nfds: 0, fds: [-1; MAXF], ctl_ok: true, pay: [0; PAY], ok: false };
 
 pub struct Rec {
     pub att: [Att; MAXA],
@@ -62,6 +64,12 @@ pub static mut R: Rec = Rec {
     fd_creates: 0,
 };
 static mut ERRNO: c_int = 0;
+/// copy the first PAY payload bytes into the attempt record (off for the plan harnesses, whose
+/// buffers are never initialised)
+pub static mut SNAPSHOT_PAYLOAD: bool = false;
+static mut SHMBUF: [[u8; 16]; 4] = [[0; 16]; 4];
+static mut NSHM: usize = 0;
+static mut NMAPPED: usize = 0;
 
 #[no_mangle]
 pub unsafe extern "C" fn __errno_location() -> *mut c_int {
@@ -126,6 +134,10 @@ unsafe fn attempt(a: Att) -> ssize_t {
     let fail = (R.mask >> i) & 1 == 1;
     R.att[i] = a;
     R.att[i].ok = !fail;
+    if SNAPSHOT_PAYLOAD && a.len > 0 {
+        let n = if a.len < PAY { a.len } else { PAY };
+        ptr::copy_nonoverlapping(a.base as *const u8, R.att[i].pay.as_mut_ptr(), n);
+    }
     if fail {
         ERRNO = libc::ENOBUFS;
         -1
@@ -182,7 +194,22 @@ pub unsafe extern "C" fn shm_unlink(_n: *const c_char) -> c_int {
 }
 #[no_mangle]
 pub unsafe extern "C" fn ftruncate(_fd: c_int, len: off_t) -> c_int {
-    assert!(len == 0);
+    assert!(len <= 16);
+    0
+}
+// minimal mappings: every mmap hands out the next 16-byte slot (contents are not shared between
+// mappings of one object — the recording kernel is not used to read regions back)
+#[no_mangle]
+pub unsafe extern "C" fn mmap(_a: *mut c_void, len: size_t, _p: c_int, _f: c_int, _fd: c_int, _o: off_t) -> *mut c_void {
+    kani::assume(NSHM < 4 && len <= 16);
+    let p = SHMBUF[NSHM].as_mut_ptr();
+    NSHM += 1;
+    NMAPPED += 1;
+    p as *mut c_void
+}
+#[no_mangle]
+pub unsafe extern "C" fn munmap(_a: *mut c_void, _len: size_t) -> c_int {
+    NMAPPED -= 1;
     0
 }
 #[no_mangle]
@@ -217,6 +244,8 @@ pub fn link() {
     bb(getpid as unsafe extern "C" fn() -> c_int);
     bb(clock_gettime as unsafe extern "C" fn(c_int, *mut libc::timespec) -> c_int);
     bb(dup as unsafe extern "C" fn(c_int) -> c_int);
+    bb(mmap as unsafe extern "C" fn(*mut c_void, size_t, c_int, c_int, c_int, off_t) -> *mut c_void);
+    bb(munmap as unsafe extern "C" fn(*mut c_void, size_t) -> c_int);
 }
 
 // ---- environment API (same names as kn.rs) -----------------------------------------------------
@@ -266,7 +295,10 @@ pub fn nopen() -> usize {
     unsafe { R.nopen }
 }
 pub fn nmapped() -> usize {
-    0
+    unsafe { NMAPPED }
+}
+pub fn set_snapshot_payload(b: bool) {
+    unsafe { SNAPSHOT_PAYLOAD = b }
 }
 pub fn bad_close() -> bool {
     unsafe { R.bad_close }
